@@ -96,6 +96,24 @@ class Variant:
             return self.index == other.index and self.val == other.val
         return False
 
+    def __hash__(self) -> int:
+        # (a variant can be an element of a set<...> or a mapping key)
+        return hash((self.index, self.val))
+
+
+def _hashable(value: object) -> object:
+    """Elements of a set<...> and keys of a mapping<...> have to be hashable
+    in Python: a decoded sequence<...> in such a position is handed out as a
+    tuple and a decoded set<...> as a frozenset, at any depth (the encoders
+    accept these forms)."""
+    if type(value) is list or type(value) is tuple:
+        return tuple(_hashable(v) for v in value)  # type: ignore[union-attr]
+    if type(value) is set:
+        return frozenset(_hashable(v) for v in value)
+    if isinstance(value, Variant):
+        return Variant(value.index, _hashable(value.val))
+    return value
+
 
 class Codec:
     """The base class for codecs."""
@@ -162,7 +180,7 @@ class MappingCodec(Codec):
         for _ in range(mapping_len):
             key = serialization._decode_tree(raw_bytes, key_type, get_by_uuid)
             val = serialization._decode_tree(raw_bytes, val_type, get_by_uuid)
-            mapping[key] = val
+            mapping[_hashable(key)] = val
         return mapping
 
     @staticmethod
@@ -284,7 +302,11 @@ class SetCodec(Codec):
         set_len = Uint64Codec.decode(raw_bytes)
         for _ in range(set_len):
             decoded_set.add(
-                serialization._decode_tree(raw_bytes, subtype, get_by_uuid)
+                _hashable(
+                    serialization._decode_tree(
+                        raw_bytes, subtype, get_by_uuid
+                    )
+                )
             )
         return decoded_set
 
